@@ -475,3 +475,205 @@ def _replay_cgr(d, kind, m, clause, model, seed):
 
 UNITS = [CondGr()]
 MANIFEST = {"text": "", "note": ""}
+
+
+# ------------------------------------------------------------------------------------------------------------------
+# conditional_sq
+
+SQ_KINDS = ("bool", "species1", "alltrue", "float", "ones", "complex", "vector", "cvector")
+SQ_BOOL = ("bool", "species1", "alltrue")
+
+
+def _unround8(v):
+    """v = round8(x) -> x (None if v is not such an application)"""
+    t = sv.znum(v)
+    if z3.is_app(t) and t.decl().name() == "round8" and t.num_args() == 1:
+        return sv.SV(t.arg(0))
+    return None
+
+
+def sq_q(inp, m, c):
+    """component c of the m-th wave vector: (2 pi / L_c) n_mc  (docs/sq.md)"""
+    return sv.mul(sv.to_real(inp["qv"].get((m, c))), sv.div(sv.mul(2, sv.PI), inp["tr"].bl(0, c)))
+
+
+def sq_mode_sum(inp, m, comp=None):
+    """sum_i A_i exp(-i q_m . r_i) as a Cx of two Sigma terms (bool: A_i in {0,1}, i.e. the sum over the selected particles);
+    comp selects the vector component of A"""
+    tr, N, d, kind, el = inp["tr"], inp["N"], inp["d"], inp["kind"], inp["el"]
+
+    def body(i):
+        theta = _sum([sv.mul(sq_q(inp, m, c), tr.pos(0, i, c)) for c in range(d)])
+        e = sv.exp(sv.Cx(0, sv.neg(theta)))
+        a = el(i)
+        if comp is not None:
+            a = a[comp]
+        if kind in SQ_BOOL:
+            return sv.Cx(sv.ite(a, e.re, 0), sv.ite(a, e.im, 0))
+        return sv.mul(sv.as_cx(a), e)
+    return sv.as_cx(Sum(0, N, body))
+
+
+class CondSq(Unit):
+    module = MOD_SQ
+    qualname = "conditional_sq"
+    prop = "C13"
+    timeout = 8
+    solver_opts = {"rounds": 4}
+
+    def cases(self):
+        return [f"d={d}/{k}" for d in (2, 3) for k in SQ_KINDS]
+
+    def _parse(self, case):
+        parts = case.split("/")
+        return int(parts[0][2:]), parts[1]
+
+    def setup(self, ctx, case):
+        d, kind = self._parse(case)
+        tr = Traj(ctx, d, T=1)
+        N = tr.N
+        nq = ctx.int("nq")
+        ctx.assume(nq >= 1)
+        for c in range(d):
+            ctx.assume(sv.cmp(">", tr.bl(0, c), 0))
+        snap = tr.snapshot(0)
+        qv = ctx.array("QV", (nq, d), "int")
+        sp = 1 if kind == "species1" else None
+        cond, el = _cond_array(ctx, kind, N, d, tr=tr, species=sp)
+        if kind in SQ_BOOL:
+            NA = Sum(0, N, lambda i: sv.ite(el(i), 1, 0))
+            ctx.assume(sv.cmp(">=", NA, 1))         # at least one selected particle
+        else:
+            NA = N
+        inp = dict(tr=tr, N=N, d=d, nq=nq, kind=kind, el=el, qv=qv, m=ctx.int("m"), g=ctx.int("g"), NA=NA)
+        return [snap, qv, cond], {}, inp
+
+    def _fft_cols(self, kind, d):
+        return [f"FFT{c}" for c in range(d)] if kind in ("vector", "cvector") else ["FFT"]
+
+    def clause_names(self, case):
+        d, kind = self._parse(case)
+        names = ["columns", "rows=one-per-wave-vector", "q-components=2pi*n/L", "q=|q-vector|", "rounded-to-8-decimals"]
+        for f in self._fft_cols(kind, d):
+            names += [f"{f}:sum=sum_i-A_i-exp(-iq.r_i)", f"{f}:normalisation=1/sqrt(N_A)"]
+        names += ["Sq=|FFT|^2", "Sq=|sum|^2/N_A", "average:columns", "average:mean-of-Sq-over-equal-rounded-|q|"]
+        if kind in ("species1", "alltrue", "ones"):
+            names += ["reduction:Sq=C04-density-mode-spec"]
+        if kind == "alltrue":
+            names += ["reduction:N_A=N"]
+        return names
+
+    def ensures(self, ctx, case, inp, out):
+        from pyvc.interp import Ref
+        from pyvc.pandas_model import df_content
+        d, kind, m, g, N, nq, NA = inp["d"], inp["kind"], inp["m"], inp["g"], inp["N"], inp["nq"], inp["NA"]
+        res = out.value
+        fcols = self._fft_cols(kind, d)
+        want_order = [f"q{c}" for c in range(d)] + ["q", "Sq"] + fcols
+        ok = isinstance(res, tuple) and len(res) == 2 and all(isinstance(r, Ref) and r.kind == "df" for r in res) \
+            and df_content(res[0])["order"] == want_order
+        yield "columns", bool(ok)
+        if not ok:
+            return
+        c = df_content(res[0])["cols"]
+        yield "rows=one-per-wave-vector", sv.cmp("==", df_content(res[0])["n"], nq)
+        inr = sv.and_(sv.cmp(">=", m, 0), sv.cmp("<", m, nq))
+        cells = {nm: c[nm].get((m,)) for nm in want_order}
+        raw = {}
+        allr = True
+        for nm, v in cells.items():
+            parts = (v.re, v.im) if isinstance(sv.norm(v), sv.Cx) else (v,)
+            un = [_unround8(x) for x in parts]
+            if any(u is None for u in un):
+                allr = False
+            raw[nm] = un
+        yield "rounded-to-8-decimals", bool(allr)
+        if not allr:
+            return
+        yield "q-components=2pi*n/L", sv.implies(inr, sv.and_(*[sv.cmp("==", raw[f"q{cc}"][0], sq_q(inp, m, cc)) for cc in range(d)])), {"ring_only": True}
+        qq = _sum([sv.mul(sq_q(inp, m, cc), sq_q(inp, m, cc)) for cc in range(d)])
+        qarg = sv.znum(raw["q"][0])
+        is_sqrt = z3.is_app(qarg) and qarg.decl().name() == "sqrt"
+        if is_sqrt:
+            yield "q=|q-vector|", sv.implies(inr, sv.cmp("==", sv.SV(qarg.arg(0)), qq)), {"ring_only": True}
+        else:
+            yield "q=|q-vector|", sv.implies(inr, sv.cmp("==", raw["q"][0], sv.sqrt(qq)))
+        # Fourier sums
+        sums = []
+        rootNA = sv.sqrt(sv.to_real(NA))
+        for ci, f in enumerate(fcols):
+            comp = ci if len(fcols) > 1 else None
+            spec = sq_mode_sum(inp, m, comp)
+            goals_sum, goals_norm = [], []
+            for part, got, want in (("re", raw[f][0], spec.re), ("im", raw[f][1], spec.im)):
+                sig = [t for t in outer_sigmas(sv.zr(got)) if not (NA is not N and t.eq(sv.znum(NA)))]
+                if sv.is_conc(want) or len(sig) != 1:
+                    goals_sum.append(False)
+                    goals_norm.append(False)
+                    continue
+                e = sv.SV(sig[0])
+                sums.append((e, want))
+                goals_sum.append(sv.implies(inr, sv.cmp("==", e, want)))
+                gn, _ = sv.generalize(sv.implies(inr, sv.cmp("==", got, sv.div(e, rootNA))), [e], "S")
+                goals_norm.append(sv.SV(gn))
+            yield f"{f}:sum=sum_i-A_i-exp(-iq.r_i)", (sv.and_(*goals_sum) if all(x is not False for x in goals_sum) else False)
+            yield f"{f}:normalisation=1/sqrt(N_A)", (sv.and_(*goals_norm) if all(x is not False for x in goals_norm) else False), {"ring_only": True}
+        sqarg = raw["Sq"][0]
+        mod2 = _sum([sv.add(sv.mul(raw[f][0], raw[f][0]), sv.mul(raw[f][1], raw[f][1])) for f in fcols])
+        yield "Sq=|FFT|^2", sv.implies(inr, sv.cmp("==", sqarg, mod2)), {"ring_only": True}
+        # the statement's formula |sum_i A_i exp(-i q.r_i)|^2 / N_A, with the sums generalised and s = sqrt(N_A), s^2 = N_A
+        if len(sums) == 2 * len(fcols):
+            tot = _sum([sv.mul(e, e) for e, _ in sums])
+            # s := sqrt(N_A) and N_A = s^2 (sqrt axiom, N_A >= 1): after these rewrites a rational identity in the sums and s
+            goal = sv.zb(sv.implies(inr, sv.cmp("==", sqarg, sv.div(tot, sv.to_real(NA)))))
+            s_ = sv.real("s_rootNA")
+            goal = z3.substitute(goal, (sv.zr(rootNA), sv.zr(s_)))
+            goal = z3.substitute(goal, (sv.zr(sv.to_real(NA)), sv.zr(sv.mul(s_, s_))))
+            gz, _ = sv.generalize(goal, [e for e, _ in sums], "G")
+            yield "Sq=|sum|^2/N_A", z3.Implies(sv.zb(sv.cmp(">", s_, 0)), gz), {"ring_only": True}
+        else:
+            yield "Sq=|sum|^2/N_A", False
+        # second table: per distinct rounded |q| the mean of the rounded Sq values
+        c2 = df_content(res[1])
+        meta = ctx.state.heap.get(res[1].sid)
+        meta = out.state.heap[res[1].sid].meta.get("groupby")
+        ok2 = c2["order"] == ["q", "Sq"] and meta is not None
+        yield "average:columns", bool(ok2)
+        if ok2:
+            K, G = meta["K"], meta["G"]
+            kg = K(g)
+            qcol, sqcol = c["q"].reader(), c["Sq"].reader()
+            num = Sum(0, nq, lambda t: sv.ite(sv.cmp("==", qcol((t,)), kg), sqcol((t,)), 0))
+            den = Sum(0, nq, lambda t: sv.ite(sv.cmp("==", qcol((t,)), kg), 1, 0))
+            ing = sv.and_(sv.cmp(">=", g, 0), sv.cmp("<", g, G))
+            yield "average:mean-of-Sq-over-equal-rounded-|q|", sv.implies(ing, sv.and_(sv.cmp("==", c2["cols"]["q"].get((g,)), kg),
+                                                                                         sv.cmp("==", c2["cols"]["Sq"].get((g,)), sv.div(num, den)),
+                                                                                         sv.cmp("==", c2["n"], G)))
+        else:
+            yield "average:mean-of-Sq-over-equal-rounded-|q|", False
+        # reductions to the C04 density-mode definition rho_a(m) = sum_{i: type_i = a} exp(-i q_m . r_i), S_aa = |rho_a|^2 / N_a
+        # (T = 1, before rounding); A = 1: the total S(q) = |rho|^2 / N
+        if kind in ("species1", "alltrue", "ones") and len(sums) == 2:
+            tr = inp["tr"]
+
+            def rho_body(i):
+                theta = _sum([sv.mul(sq_q(inp, m, cc), tr.pos(0, i, cc)) for cc in range(d)])
+                e = sv.exp(sv.Cx(0, sv.neg(theta)))
+                if kind == "species1":
+                    sel = sv.cmp("==", tr.typ(0, i), 1)
+                    return sv.Cx(sv.ite(sel, e.re, 0), sv.ite(sel, e.im, 0))
+                return e
+            rho = sv.as_cx(Sum(0, N, rho_body))
+            if kind == "alltrue":
+                yield "reduction:N_A=N", sv.cmp("==", NA, N)
+            Na = N if kind != "species1" else NA        # N_a = #{i: type_i = a}
+            goal = sv.implies(sv.and_(inr, sv.cmp(">=", NA, 1)),
+                              sv.cmp("==", sv.div(_sum([sv.mul(e, e) for e, _ in sums]), sv.to_real(NA)),
+                                     sv.div(sv.add(sv.mul(rho.re, rho.re), sv.mul(rho.im, rho.im)), sv.to_real(Na))))
+            yield "reduction:Sq=C04-density-mode-spec", goal
+
+    def replay(self, case, clause, model, seed):
+        return {"ran": False, "failed": False}
+
+
+UNITS = [CondGr(), CondSq()]
